@@ -26,6 +26,63 @@ def dict_mutations(ctx: Ctx, f, field="_dict"):
     return out
 
 
+
+
+def _elem_type_text(x, value):
+    """the expansion denotes the type of an element of the value: `type(<elem>(value))`, or an element of the list of the
+    types of the (cleaned, non-None) elements"""
+    import re as _re
+    if x.startswith("type(") and ("<elem>(%s)" % value in x or "<loop:" in x):
+        return True
+    m = _re.match(r"^<elem>\(\[type\((\w+)\) for \1 in (.+)\]\)$", x)
+    return bool(m) and value in m.group(2)
+
+def _plugin_fold(ctx, ds0):
+    """Second shape of the plugin accumulation: `config.resource = reduce(step, providers, Resource.create())` where
+    `step(acc, provider)` answers `acc.merge(<provider.resource()>)` or `acc` itself on every path."""
+    p, t = ctx.prog, ctx.types
+    for n in t.nodes_in(ds0, ast.Assign):
+        if not (isinstance(n.targets[0], ast.Attribute) and n.targets[0].attr == "resource"):
+            continue
+        v = n.value
+        if isinstance(v, ast.Name):
+            bs = [b for k, b in t.local_bindings(ds0, v.id) if k == "assign"]
+            if len(bs) != 1:
+                continue
+            v = bs[0][1]
+        if not (isinstance(v, ast.Call) and len(v.args) == 3 and not v.keywords and "functools.reduce" in t.resolve_call(v, ds0).ext):
+            continue
+        step = None
+        for ty in t.type_of(v.args[0], ds0):
+            if ty[0] in ("func", "bound") and ty[1] in p.functions:
+                step = p.functions[ty[1]]
+        if step is None:
+            continue
+        ps = [a for a in step.params if a not in ("self", "cls")]
+        if len(ps) != 2:
+            continue
+        acc, item = ps
+        it_ = ctx.expand.expand(v.args[1], ds0)[0]
+        if ("resource_providers" not in it_ and "ResourceProvider" not in it_) or "Resource.create()" not in ctx.expand.expand(v.args[2], ds0)[0]:
+            continue
+        pm = [c for c in t.calls_in(step) if any(x.qname == RES + ".merge" for x in t.resolve_call(c, step).repo)]
+        if len(pm) != 1 or norm(pm[0].func.value) != acc or not pm[0].args:
+            continue
+        src = ctx.expand.expand(pm[0].args[0], step)[0]
+        if "resource()" not in src or item not in src:
+            continue
+        rebound = [x for x in t.nodes_in(step, (ast.Assign, ast.AugAssign)) for tg in (x.targets if isinstance(x, ast.Assign) else [x.target])
+                   if isinstance(tg, ast.Name) and tg.id in (acc, item)]
+        rets = [r for r in t.nodes_in(step, ast.Return)]
+        if rebound or not rets or not all(r.value is pm[0] or (isinstance(r.value, ast.Name) and r.value.id == acc) for r in rets):
+            continue
+        # the step ends in a return on every path (no fall-through answering None)
+        last = step.node.body[-1]
+        if not isinstance(last, ast.Return):
+            continue
+        return True
+    return False
+
 def run(ctx: Ctx, tier: str) -> Result:
     res = Result("C18")
     res.explanation = (
@@ -75,6 +132,19 @@ def run(ctx: Ctx, tier: str) -> Result:
                 if r.value is not None and norm(r.value) in ("self._dict", "iter(self._dict)", "self._dict.items()", "self._dict.values()", "self._dict.keys()"):
                     res.fail(Finding("C18.FROZEN", f.qname, r, f.loc(r), "the backing dict (or a live view of it) is handed out: callers can modify a frozen container"))
     res.floor("backing-dict mutation sites", nm, 4)
+    # the backing store is the container's own: every binding of `_dict` is a new empty mapping (entries arrive through
+    # __setitem__, cleaned and counted) - a mapping taken over from the caller is neither cleaned nor frozen
+    nbind = 0
+    for sf_, v_, _ in t.field_stores(ba, "_dict"):
+        nbind += 1
+        own = isinstance(v_, ast.Call) and norm(v_.func) in ("OrderedDict", "collections.OrderedDict", "dict") and not v_.args and not v_.keywords
+        own = own or (isinstance(v_, ast.Dict) and not v_.keys)
+        if own:
+            res.ok("C18.CLEAN", {"backing store created empty in": sf_.name})
+        else:
+            res.fail(Finding("C18.CLEAN", sf_.qname, v_, sf_.loc(v_), "the backing store is set to `%s`, not to a new empty mapping filled through __setitem__: the values are stored "
+                             "uncleaned and the mapping stays shared with whoever passed it (a frozen container changes when the caller changes its mapping)" % norm(v_)[:50]))
+    res.floor("bindings of the backing store", nbind, 1)
     init = ba.lookup("__init__")
     imm = [(sf, v) for sf, v, _ in t.field_stores(ba, "_immutable")]
     sets = [c for c in t.nodes_in(init, ast.Subscript) if isinstance(c.ctx, ast.Store) and norm(c.value) == "self"]
@@ -127,12 +197,28 @@ def run(ctx: Ctx, tier: str) -> Result:
         res.fail(Finding("C18.CAP", si.qname, "<max_length == 0: dropped += 1; return>", si.loc(), "a container of capacity 0 does not drop (and count) every value"))
     # eviction
     oke = False
+    _evict_stmt = None
+    if not pops:
+        # the oldest entry removed by hand: `del self._dict[next(iter(self._dict))]` (the key possibly held in a local)
+        for d_ in t.nodes_in(si, ast.Delete):
+            for tg_ in d_.targets:
+                if isinstance(tg_, ast.Subscript) and norm(tg_.value) == "self._dict":
+                    k_ = tg_.slice
+                    if isinstance(k_, ast.Name):
+                        lb_ = [b for kk, b in t.local_bindings(si, k_.id) if kk == "assign"]
+                        k_ = lb_[0][1] if len(lb_) == 1 and len(t.local_bindings(si, k_.id)) == 1 and lb_[0][2] is None else k_
+                    if norm(k_) == "next(iter(self._dict))":
+                        pops.append(ast.copy_location(ast.Call(func=ast.Attribute(value=tg_.value, attr="popitem", ctx=ast.Load()), args=[],
+                                                               keywords=[ast.keyword(arg="last", value=ast.Constant(False))]), d_))
+                        ctx._extra.setdefault("keepalive", []).append(pops[-1])
+                        _evict_stmt = d_
     if len(pops) == 1:
         kw = {k.arg: norm(k.value) for k in pops[0].keywords}
-        conds = [(norm(c), pol) for c, pol in paths.conditions(p, pops[0], si)]
+        anchor_ = pops[0] if id(pops[0]) in p.parent else _evict_stmt
+        conds = [(norm(c), pol) for c, pol in paths.conditions(p, anchor_, si)]
         new_key = any(("in self._dict" in c and "key" in c and not pol) for c, pol in conds)
         full = any(pol and "len(self._dict) == self.max_length" in c and "max_length is not None" in c for c, pol in conds)
-        blk = paths.block_position(p, paths.stmt_of(p, pops[0]))
+        blk = paths.block_position(p, paths.stmt_of(p, anchor_))
         sibs = getattr(blk[0], blk[1])
         counted = [d for d in drops if d in sibs and isinstance(d.op, ast.Add) and norm(d.value) == "1"]
         oke = kw.get("last") == "False" and new_key and full and len(counted) == 1 and pops[0].lineno < stores[0].lineno
@@ -145,9 +231,9 @@ def run(ctx: Ctx, tier: str) -> Result:
         res.ok("C18.CAP", {"drops counted only for capacity-0 and eviction": True})
     else:
         res.fail(Finding("C18.CAP", si.qname, "<self.dropped += 1>", si.loc(), "the dropped counter is changed at %d places (expected 2: capacity 0, eviction)" % len(drops)))
-    dels = [n for n in t.nodes_in(si, ast.Delete)]
+    dels = [n for n in t.nodes_in(si, ast.Delete) if n is not _evict_stmt]
     okr = dels and all(any(pol and "in self._dict" in norm(c) for c, pol in paths.conditions(p, d, si)) for d in dels) and \
-        not any(paths.within(p, pops[0], b) for d in dels for b in [paths.block_position(p, d)[0]] if pops and isinstance(b, ast.If) and paths.within(p, pops[0], ast.Module(body=b.body, type_ignores=[])) )
+        not any(paths.within(p, pops[0], b) for d in dels for b in [paths.block_position(p, d)[0]] if pops and isinstance(b, ast.If) and paths.within(p, _evict_stmt or pops[0], ast.Module(body=b.body, type_ignores=[])))
     if okr or not dels:
         res.ok("C18.CAP", {"replacing an existing key evicts nothing": True})
     else:
@@ -213,7 +299,7 @@ def run(ctx: Ctx, tier: str) -> Result:
     # every element of a sequence must itself be of a valid primitive type: the rejection returns None
     inval = [r for r in nones if any(pol and isinstance(c, ast.Compare) and len(c.ops) == 1 and isinstance(c.ops[0], ast.NotIn)
                                      and norm(c.comparators[0]) == "_VALID_ATTR_VALUE_TYPES"
-                                     and all(x.startswith("type(") and ("<elem>(%s)" % P(ca, 1) in x or "<loop:" in x) for x in ctx.expand.expand(c.left, ca))
+                                     and all(_elem_type_text(x, P(ca, 1)) for x in ctx.expand.expand(c.left, ca))
                                      for c, pol in paths.conditions(p, r, ca)) and paths.enclosing_loops(p, r, ca)]
     if inval:
         res.ok("C18.CLEAN", {"sequence element of an invalid type rejects the value": ca.loc(inval[0])})
@@ -270,6 +356,13 @@ def run(ctx: Ctx, tier: str) -> Result:
     okm = len(cps) == 1 and len(upd) == 1 and ctx.expand.expand(cps[0].value.func.value, mg) == ["@self._attributes"] and \
         norm(upd[0].func.value) == norm(cps[0].targets[0]) and ctx.expand.expand(upd[0].args[0], mg) == ["%s._attributes" % P(mg, 1)] and \
         paths.dominates(p, cps[0], upd[0], mg)
+    if not okm and not upd:
+        # the same thing as one display: `{**self.attributes, **other.attributes}` - a new mapping, right operand wins
+        for n_ in t.nodes_in(mg, ast.Dict):
+            if len(n_.keys) == 2 and n_.keys == [None, None]:
+                l_ = n_.values[0].func.value if isinstance(n_.values[0], ast.Call) and isinstance(n_.values[0].func, ast.Attribute) and n_.values[0].func.attr == "copy" \
+                    and not n_.values[0].args else n_.values[0]
+                okm = ctx.expand.expand(l_, mg) == ["@self._attributes"] and ctx.expand.expand(n_.values[1], mg) == ["%s._attributes" % P(mg, 1)]
     if okm:
         res.ok("C18.MERGE", {"merged attributes": "copy of self updated with other (other wins)"})
     else:
@@ -307,23 +400,49 @@ def run(ctx: Ctx, tier: str) -> Result:
         if txt.startswith("_DEFAULT_RESOURCE.merge("):
             chain = n
     okc = False
+    upstream_ = set()
     if chain is not None:
         v = chain.value
         # (_DEFAULT_RESOURCE.merge(<detector>.detect())).merge(Resource(attributes, schema_url))
         okc = isinstance(v, ast.Call) and isinstance(v.func, ast.Attribute) and v.func.attr == "merge" and \
             isinstance(v.func.value, ast.Call) and norm(v.func.value.func) == "_DEFAULT_RESOURCE.merge" and \
             "DeepResourceDetector().detect()" in norm(v.func.value.args[0]) and norm(v.args[0]).startswith("Resource(%s" % cr.params[0])
+    if not okc:
+        # the same chain written with named intermediates: the first, unconditional binding of the returned name
+        rets0 = [r for r in t.nodes_in(cr, ast.Return) if isinstance(r.value, ast.Name)]
+        cand = [n for n in firsts if rets0 and n.targets[0].id == rets0[0].value.id and not paths.conditions(p, n, cr) and not paths.enclosing_loops(p, n, cr)]
+        if cand:
+            import re as _re3
+            c0 = min(cand, key=lambda n: n.lineno)
+            ex_ = ctx.expand.expand(c0.value, cr)
+            pat = r"^deep\.api\.resource\._DEFAULT_RESOURCE\.merge\([\w.]+\(\)\.detect\(\)\)\.merge\(deep\.api\.resource\.Resource\.__init__\((@%s|\{\}), @%s\)\)$" % (cr.params[0], cr.params[1])
+            dets_ = [c for c in t.calls_in(cr) if isinstance(c.func, ast.Attribute) and c.func.attr == "detect"]
+            if ex_ and all(_re3.match(pat, x) for x in ex_) and len(dets_) == 1 and \
+                    [f_.qname for f_ in t.resolve_call(dets_[0], cr).repo] == ["deep.api.resource.DeepResourceDetector.detect"]:
+                chain, okc = c0, True
+                todo_ = [x.id for x in ast.walk(c0.value) if isinstance(x, ast.Name)]
+                while todo_:
+                    nm_ = todo_.pop()
+                    if nm_ in upstream_:
+                        continue
+                    upstream_.add(nm_)
+                    for k_, b_ in t.local_bindings(cr, nm_):
+                        if k_ == "assign" and b_[1] is not None:
+                            todo_ += [x.id for x in ast.walk(b_[1]) if isinstance(x, ast.Name)]
     if okc:
         res.ok("C18.CHAIN", {"create": "default.merge(environment).merge(code attributes)"})
     else:
         res.fail(Finding("C18.CHAIN", cr.qname, chain if chain is not None else "<default.merge(env).merge(code)>", cr.loc(), "Resource.create does not combine default < environment < code attributes in that order"))
     fb = [c for c in t.calls_in(cr) if isinstance(c.func, ast.Attribute) and c.func.attr == "merge" and c is not (chain.value if chain is not None else None)
-          and not (chain is not None and paths.within(p, c, chain))]
+          and not (chain is not None and paths.within(p, c, chain))
+          and not (isinstance(paths.stmt_of(p, c), ast.Assign) and isinstance(paths.stmt_of(p, c).targets[0], ast.Name) and paths.stmt_of(p, c).targets[0].id in upstream_
+                   and paths.stmt_of(p, c) is not chain and paths.stmt_of(p, c).lineno < chain.lineno)]
     okf = False
     if len(fb) == 1:
         conds = [(norm(c), pol) for c, pol in paths.conditions(p, fb[0], cr)]
         okf = any("'service.name'" in ctx.expand.expand(ast.parse(c, mode="eval").body, cr)[0] if False else ("SERVICE_NAME" in c) for c, pol in conds) and \
-            "SERVICE_NAME" in norm(fb[0].args[0]) and norm(fb[0].func.value) == norm(chain.targets[0]) if chain is not None else False
+            ("SERVICE_NAME" in norm(fb[0].args[0]) or all(x.startswith("deep.api.resource.Resource.__init__({'service.name':") for x in ctx.expand.expand(fb[0].args[0], cr))) \
+            and norm(fb[0].func.value) == norm(chain.targets[0]) if chain is not None else False
     # "a service name" is a non-empty one: the fallback is taken whenever the combined sources hold none *or an empty one*
     # (the condition is the truth of the name, after negation normalisation: (get(service.name), False)), not `is None`
     if okf and len(fb) == 1:
@@ -415,6 +534,8 @@ def run(ctx: Ctx, tier: str) -> Result:
                     or (isinstance(n.value, ast.Name) and any(k == "assign" and isinstance(b[1], ast.Call) and ds in t.resolve_call(b[1], ds0).repo
                                                               for k, b in t.local_bindings(ds0, n.value.id)) and len(rets_) == 1 and norm(rets_[0].value) == acc)
         okp = okp and len(inits) == 1 and "Resource.create()" in norm(inits[0].value) and stored
+    if not okp:
+        okp = _plugin_fold(ctx, ds0)
     if okp:
         res.ok("C18.CHAIN", {"plugins": "accumulated.merge(plugin resource) in plugin order, stored as the client resource"})
     else:
@@ -454,4 +575,7 @@ def run(ctx: Ctx, tier: str) -> Result:
                     res.ok("C18.CHAIN", {"snapshot created with the configuration's resource": f_.loc(c)})
                 else:
                     res.fail(Finding("C18.CHAIN", f_.qname, c, f_.loc(c), "the snapshot is not created with the resource the configuration holds (%s)" % (src or "no resource argument")))
+    from .common import borrow
+    borrow(ctx, res, tier, "c20", ("C20.LOAD",), "C18.CHAIN", "plugin-provided attributes override one another in the plugins' declared order: the list the providers "
+           "are taken from is the loaded list sorted by order()")
     return res
